@@ -7,6 +7,7 @@ package patch
 type vGuardRec struct {
 	g         *Guard
 	target    int
+	repl      int
 	cancelled bool
 }
 
@@ -16,9 +17,9 @@ var vReplFns = [3]interface{}{vReplA, vReplB, vReplC}
 var vOpNames = [6]string{"op0", "op1", "op2", "op3", "op4", "op5"}
 var vArgNames = [6]string{"arg0", "arg1", "arg2", "arg3", "arg4", "arg5"}
 
-// vLive: the latest guard of target t exists and has not been cancelled, and no
-// UnpatchAll happened since.
+// vLiveT: the entry window of target t currently holds a jump (of the guard vWin[t]).
 var vLiveT [2]bool
+var vWin [2]int
 
 func vWindowIsJump(t *vTarget, r int, id string) {
 	want := jmpToFunctionValue(t.addr, verifFuncAddr(vReplFns[r]))
@@ -51,6 +52,7 @@ func vHistory(K int) {
 	vReset()
 	vNumGuards = 0
 	vLiveT = [2]bool{}
+	vWin = [2]int{-1, -1}
 	var ts [2]*vTarget
 	ts[0], ts[1] = vNewTarget(), vNewTarget()
 	verifAssume(ts[0].size >= 32)
@@ -62,7 +64,18 @@ func vHistory(K int) {
 	verifAssume(verifImgLoad(ts[1].addr) != 0x90)
 	snap := verifImgSnap()
 	for step := 0; step < K; step++ {
-		switch verifChoice(vOpNames[step], 3) {
+		switch verifChoice(vOpNames[step], 4) {
+		case 3: // Restore any guard obtained so far: its jump is back in its target's window
+			if vNumGuards == 0 {
+				return
+			}
+			gi := verifChoice(vArgNames[step], vNumGuards)
+			rec := &vGuards[gi]
+			rec.g.Restore()
+			rec.cancelled = false
+			vLiveT[rec.target] = true
+			vWin[rec.target] = gi
+			vWindowIsJump(ts[rec.target], rec.repl, "C02.hist.restore-reinstalls-own-jump")
 		case 0: // mock(t, r)
 			a := verifChoice(vArgNames[step], 4)
 			ti, r := a&1, a>>1
@@ -72,7 +85,8 @@ func vHistory(K int) {
 				return
 			}
 			g.Apply()
-			vGuards[vNumGuards] = vGuardRec{g: g, target: ti}
+			vGuards[vNumGuards] = vGuardRec{g: g, target: ti, repl: r}
+			vWin[ti] = vNumGuards
 			vNumGuards++
 			vLiveT[ti] = true
 			vWindowIsJump(ts[ti], r, "C02.hist.window-holds-jump")
@@ -88,25 +102,26 @@ func vHistory(K int) {
 			rec.cancelled = true
 			// the target of that guard is pristine again right after the cancel
 			vWindowPristine(snap, ts[rec.target], "C02.hist.cancel-restores-window")
-			// live iff the newest guard of the target is not cancelled
-			for j := vNumGuards - 1; j >= 0; j-- {
-				if vGuards[j].target == rec.target {
-					vLiveT[rec.target] = !vGuards[j].cancelled
-					break
-				}
-			}
+			// whichever guard's jump was there: the window is pristine now
+			vLiveT[rec.target] = false
+			vWin[rec.target] = -1
 		case 2:
 			UnpatchAll()
 			vWindowPristine(snap, ts[0], "C02.hist.unpatchall-restores")
 			vWindowPristine(snap, ts[1], "C02.hist.unpatchall-restores")
+			vLiveT = [2]bool{}
+			vWin = [2]int{-1, -1}
 		}
 		vInvariant(snap, ts)
-		all := vNumGuards > 0
-		for j := 0; j < vNumGuards; j++ {
-			if !vGuards[j].cancelled {
-				all = false
+		// the window of a live target holds exactly the jump of the guard that wrote last
+		for t := 0; t < 2; t++ {
+			if vLiveT[t] {
+				vWindowIsJump(ts[t], vGuards[vWin[t]].repl, "C02.hist.live-window-holds-last-jump")
+			} else {
+				vWindowPristine(snap, ts[t], "C02.hist.dead-window-is-pristine")
 			}
 		}
+		all := vNumGuards > 0 && !vLiveT[0] && !vLiveT[1]
 		if all {
 			n := verifImgDistinctWritten()
 			for i := 0; i < n; i++ {
